@@ -1,12 +1,36 @@
-"""C13 - bounded stand-in tier (native/b_c13.py through props/_qb.py)."""
+"""C13: `_is_pattern_absolute` proved against its exact specification from the real AST (string VCs) + bounded stand-in
+(metamorphic relations over every query function, native/b_c13.py)."""
+import sys
 from props import _qb
-LEVEL = 'exploration'
+from vlib.report import VERIF, REPO
+LEVEL = 'other'
 PID = 'C13'
 
 
 def run(rep, tier, seed):
+    sys.path.insert(0, VERIF); sys.setrecursionlimit(20000)
+    from specs import edifify
+    rep.explanation = ('which patterns take the exact (fast-lookup / equality) route: _is_pattern_absolute(p, is_case, is_re) <=> is_case and not is_re '
+                       'and p contains neither * nor ?, proved for all strings (P); the meaning of wildcard / regex / case options, union over '
+                       'patterns, duplicates, order- and lookup-independence for the 13 query functions: bounded stand-in only (the matcher is a '
+                       'translation to `re`, whose semantics is an external contract; the query functions are generator work-lists)')
+    res, shas, deg = edifify.run_patterns(REPO)
+    rep.functions.update(shas)
+    for fn, why in deg.items(): rep.degrade('patterns.' + fn, why)
+    for name, status, t, detail, be in res:
+        rep.p(name, status, be if isinstance(be, str) and be else 'z3', t, 'patterns._is_pattern_absolute', detail if status != 'discharged' else None)
+        if status == 'failed':
+            rep.violation(name, 'obligation %s is no longer discharged (%s)' % (name, str(detail)[:200]),
+                          replay={'kind': 'obligation', 'obligation': name, 'solver_output': str(detail)[:1500]}, nfi=True)
+    if not res and not deg: rep.error('zero obligations generated for C13')
+    rep.trusted = ['pyvc/strvc.py, z3/cvc5']
+    rep.assumptions = ['is_case / is_re are Booleans (documented)', 're.fullmatch / re.escape semantics are external (unverified) contracts']
     _qb.run(rep, PID, tier, seed)
 
 
 def replay(path):
+    import json
+    d = json.load(open(path)); r = d.get('replay') or {}
+    if r.get('kind') == 'obligation':
+        print('replay file names obligation %s; solver output: %s' % (r.get('obligation'), str(r.get('solver_output'))[:300])); return 0
     return _qb.replay(path, PID)
